@@ -418,6 +418,10 @@ def step (line : String) : String :=
     match unhex s, w.toInt? with
     | some s, some w => withSpec (showOut (leftPadHex s w)) (Spec.Run.leftpad s w)
     | _, _ => "bad-op"
+  | ["musthex", s, w] =>
+    match unhex s, w.toInt? with
+    | some s, some w => withSpec (showOut (mustHexPadLeft s w)) (Spec.Run.musthex s w)
+    | _, _ => "bad-op"
   | ["hexinput", a, b, c, d, e] =>
     match unhex a, unhex b, unhex c, unhex d, unhex e with
     | some a, some b, some c, some d, some e =>
